@@ -1,16 +1,29 @@
 """Regenerates lean/AioslskVerif/Generated/EntitleConstants.lean — the data-like parts of the entitlement
-decisions (C08) — from the working tree by AST. Anything not recognised raises (never skipped).
+decisions (C08) — from the working tree. Two readings:
+
+* by AST, section by section (exact shapes; a shape that is not recognised is an error of that section, never skipped):
 
   transfer/manager.py
     _evaluate_aborted_state   the three predicates (constant / flag each one tests) and the ORDER of the
                               `conditions` tuple; the two closing statements
-    manage_shares_changed     the states left alone (`not in (COMPLETE, FAILED)`)
+    manage_shares_changed     the states left alone (`not in (COMPLETE, FAILED)`), the loop; whether another shares cycle
+                              is asked for when an upload's state lock is held
     _on_peer_transfer_queue   blocking flag + refusal reason; the state answered with CANCELLED; the states queued again
     _on_peer_transfer_request blocking flag + refusal reason; `fail_reason_map`
   search/manager.py  _query_shares_and_reply   blocking flag
   peer.py            _on_peer_shares_request / _on_peer_directory_contents_req   blocking flag
   shares/manager.py  query    whether the excluded phrase is lower-cased before the `in` test
   user/model.py      BlockingFlag values;   transfer/model.py  AbortReason / FailReason strings
+
+* by behaviour (`extract_by_behaviour`): the REAL managers on one bus with a one-file index, every finite domain the
+  constants encode enumerated completely (the cycle's decision over state x abort reason x blocked x shared with the state
+  methods spied, the two upload handlers and the three reply gates for every single BlockingFlag bit and every state of an
+  existing upload).
+
+`extract_checked` = the AST reading where the source has the known shape, CROSS-CHECKED key by key against the behavioural
+reading (a disagreement raises); the behavioural reading alone for a section that was rewritten (helpers, comprehensions,
+early `continue`s). A real change of a table shows either as a different generated file (the theorems over it are
+re-checked) or as an error.
 """
 import ast
 from pathlib import Path
@@ -136,177 +149,243 @@ def _phrase_folded_by_behaviour(repo: Path) -> bool:
         shutil.rmtree(tmp, ignore_errors=True)
 
 
-def extract(repo: Path) -> dict:
+def _ast_sections(repo: Path) -> tuple[dict, dict]:
+    """The AST reading, section by section: ({key: value}, {section: error}). A section whose source has a shape this walk
+    does not know contributes no key and one error; the others are read all the same."""
     out: dict = {}
+    errors: dict = {}
     tm = ast.parse((repo / 'src/aioslsk/transfer/manager.py').read_text())
 
-    # ---- _evaluate_aborted_state -------------------------------------------------------------------
-    ev = _func(tm, '_evaluate_aborted_state')
-    preds: dict[str, str] = {}
-    for st in ev.body:
-        if isinstance(st, ast.FunctionDef):
-            body = [b for b in st.body if not (isinstance(b, ast.Expr) and isinstance(b.value, ast.Constant))]
-            if len(body) != 1 or not isinstance(body[0], ast.Return):
-                raise TranslateError(f'_evaluate_aborted_state: predicate {st.name} is not a single return')
-            r = body[0].value
-            s = _src(r)
-            if (isinstance(r, ast.Compare) and len(r.ops) == 1 and isinstance(r.ops[0], ast.Eq)
-                    and _src(r.left) == 'transfer.abort_reason'):
-                out['requested_reason'] = _m(REASONS, _attr_of(r.comparators[0], 'AbortReason', st.name), st.name)
-                preds[st.name] = 'abortRequested'
-            elif isinstance(r, ast.Call) and isinstance(r.func, ast.Attribute) and r.func.attr == 'is_blocked':
-                out['eval_flag'] = _one_flag(st, st.name, 'transfer.username')
-                preds[st.name] = 'userBlocked'
-            elif s == 'not bool(self._shares_manager.find_shared_item_cache(transfer.remote_path, transfer.username))':
-                preds[st.name] = 'notShared'
+    def section(name):
+        def deco(fn):
+            part: dict = {}
+            try:
+                fn(part)
+            except TranslateError as e:
+                errors[name] = str(e)
             else:
-                raise TranslateError(f'_evaluate_aborted_state: predicate {st.name} not understood: {s!r}')
-    conds = None
-    tail = []
-    for st in ev.body:
-        if isinstance(st, ast.Assign) and _src(st.targets[0]) == 'conditions':
-            if not isinstance(st.value, ast.Tuple):
-                raise TranslateError('_evaluate_aborted_state: `conditions` is not a tuple')
-            conds = []
-            for e in st.value.elts:
-                if not (isinstance(e, ast.Tuple) and len(e.elts) == 2 and isinstance(e.elts[0], ast.Name)):
-                    raise TranslateError(f'_evaluate_aborted_state: condition entry {_src(e)!r}')
-                if e.elts[0].id not in preds:
-                    raise TranslateError(f'_evaluate_aborted_state: unknown predicate {e.elts[0].id!r}')
-                conds.append((preds[e.elts[0].id],
-                              _m(REASONS, _attr_of(e.elts[1], 'AbortReason', 'conditions'), 'conditions')))
-        elif not isinstance(st, (ast.FunctionDef, ast.Expr)):
-            tail.append(_src(st))
-    if conds is None:
-        raise TranslateError('_evaluate_aborted_state: `conditions` not found')
-    expected_tail = [
-        'abort_reason = None',
-        'for condition, reason in conditions:\n    if condition(upload):\n        abort_reason = reason\n        break',
-        'aborted = upload.state.VALUE == TransferState.ABORTED',
-        'should_change = aborted != bool(abort_reason)',
-        'return (should_change, abort_reason)',
-    ]
-    # the same first-match search written as a generator expression
-    alt_tail = ['abort_reason = next((reason for condition, reason in conditions if condition(upload)), None)'] + expected_tail[2:]
-    if tail != expected_tail and tail != alt_tail:
-        raise TranslateError(f'_evaluate_aborted_state: statements after the predicates not understood: {tail!r}')
-    out['conditions'] = conds
+                out.update(part)
+            return fn
+        return deco
 
-    # ---- manage_shares_changed ---------------------------------------------------------------------
-    ms = _func(tm, 'manage_shares_changed')
-    skips = [n for n in ast.walk(ms) if isinstance(n, ast.Compare) and len(n.ops) == 1 and isinstance(n.ops[0], ast.NotIn)
-             and _src(n.left) == 'transfer.state.VALUE']
-    if len(skips) != 1:
-        raise TranslateError('manage_shares_changed: expected one `transfer.state.VALUE not in (...)` filter')
-    out['skip_states'] = [_m(STATES, s, 'manage_shares_changed') for s in _state_tuple(skips[0].comparators[0], 'skip')]
-    loops = [n for n in ms.body if isinstance(n, ast.For)]
-    expected_loop = ('for upload in uploads:\n'
-                     '    should_change, abort_reason = self._evaluate_aborted_state(upload)\n'
-                     '    if should_change:\n'
-                     '        if upload.state.VALUE == TransferState.ABORTED:\n'
-                     '            tasks.append(upload.state.queue())\n'
-                     '        else:\n'
-                     '            tasks.append(upload.state.abort(reason=abort_reason))\n'
-                     '    elif abort_reason:\n'
-                     '        upload.abort_reason = abort_reason')
-    # since 8a6456f the re-queue goes through a helper that first checks that the upload is still listed (C06: removed
-    # meanwhile). The C08 model has no `remove`: every upload stays listed, the helper is `upload.state.queue()`.
-    guarded_loop = expected_loop.replace('tasks.append(upload.state.queue())', 'tasks.append(self._requeue_if_listed(upload))')
-    if len(loops) == 1 and _src(loops[0]) == guarded_loop:
-        helper = _func(tm, '_requeue_if_listed')
-        body = [b for b in helper.body
-                if not (isinstance(b, ast.Expr) and isinstance(b.value, ast.Constant) and isinstance(b.value.value, str))]
-        if not (isinstance(helper, ast.AsyncFunctionDef) and [a.arg for a in helper.args.args] == ['self', 'upload']
-                and len(body) == 1 and isinstance(body[0], ast.If) and not body[0].orelse
-                and _src(body[0].test) in ('any((transfer is upload for transfer in self._transfers))',
-                                           'any((transfer is upload for transfer in self.transfers))',
-                                           'upload in self._transfers', 'upload in self.transfers')
-                and [_src(b) for b in body[0].body] == ['await upload.state.queue()']):
-            raise TranslateError('_requeue_if_listed: not `if <upload still listed>: await upload.state.queue()`: '
-                                 + repr(_src(helper)))
-    elif len(loops) != 1 or _src(loops[0]) != expected_loop:
-        raise TranslateError('manage_shares_changed: loop over the uploads not understood: '
-                             + repr([_src(l) for l in loops]))
+    # ---- _evaluate_aborted_state + manage_shares_changed (one section: the loop gives the table its meaning) --------
+    @section('cycle')
+    def _cycle(out):
+        ev = _func(tm, '_evaluate_aborted_state')
+        preds: dict[str, str] = {}
+        for st in ev.body:
+            if isinstance(st, ast.FunctionDef):
+                body = [b for b in st.body if not (isinstance(b, ast.Expr) and isinstance(b.value, ast.Constant))]
+                if len(body) != 1 or not isinstance(body[0], ast.Return):
+                    raise TranslateError(f'_evaluate_aborted_state: predicate {st.name} is not a single return')
+                r = body[0].value
+                s = _src(r)
+                if (isinstance(r, ast.Compare) and len(r.ops) == 1 and isinstance(r.ops[0], ast.Eq)
+                        and _src(r.left) == 'transfer.abort_reason'):
+                    out['requested_reason'] = _m(REASONS, _attr_of(r.comparators[0], 'AbortReason', st.name), st.name)
+                    preds[st.name] = 'abortRequested'
+                elif isinstance(r, ast.Call) and isinstance(r.func, ast.Attribute) and r.func.attr == 'is_blocked':
+                    out['eval_flag'] = _one_flag(st, st.name, 'transfer.username')
+                    preds[st.name] = 'userBlocked'
+                elif s == 'not bool(self._shares_manager.find_shared_item_cache(transfer.remote_path, transfer.username))':
+                    preds[st.name] = 'notShared'
+                else:
+                    raise TranslateError(f'_evaluate_aborted_state: predicate {st.name} not understood: {s!r}')
+        conds = None
+        tail = []
+        for st in ev.body:
+            if isinstance(st, ast.Assign) and _src(st.targets[0]) == 'conditions':
+                if not isinstance(st.value, ast.Tuple):
+                    raise TranslateError('_evaluate_aborted_state: `conditions` is not a tuple')
+                conds = []
+                for e in st.value.elts:
+                    if not (isinstance(e, ast.Tuple) and len(e.elts) == 2 and isinstance(e.elts[0], ast.Name)):
+                        raise TranslateError(f'_evaluate_aborted_state: condition entry {_src(e)!r}')
+                    if e.elts[0].id not in preds:
+                        raise TranslateError(f'_evaluate_aborted_state: unknown predicate {e.elts[0].id!r}')
+                    conds.append((preds[e.elts[0].id],
+                                  _m(REASONS, _attr_of(e.elts[1], 'AbortReason', 'conditions'), 'conditions')))
+            elif not isinstance(st, (ast.FunctionDef, ast.Expr)):
+                tail.append(_src(st))
+        if conds is None:
+            raise TranslateError('_evaluate_aborted_state: `conditions` not found')
+        expected_tail = [
+            'abort_reason = None',
+            'for condition, reason in conditions:\n    if condition(upload):\n        abort_reason = reason\n        break',
+            'aborted = upload.state.VALUE == TransferState.ABORTED',
+            'should_change = aborted != bool(abort_reason)',
+            'return (should_change, abort_reason)',
+        ]
+        # the same first-match search written as a generator expression
+        alt_tail = ['abort_reason = next((reason for condition, reason in conditions if condition(upload)), None)'] + expected_tail[2:]
+        if tail != expected_tail and tail != alt_tail:
+            raise TranslateError(f'_evaluate_aborted_state: statements after the predicates not understood: {tail!r}')
+        if 'requested_reason' not in out or 'eval_flag' not in out:
+            raise TranslateError('_evaluate_aborted_state: no predicate on abort_reason / on the block list')
+        out['conditions'] = conds
+
+        ms = _func(tm, 'manage_shares_changed')
+        skips = [n for n in ast.walk(ms) if isinstance(n, ast.Compare) and len(n.ops) == 1 and isinstance(n.ops[0], ast.NotIn)
+                 and _src(n.left) == 'transfer.state.VALUE']
+        if len(skips) != 1:
+            raise TranslateError('manage_shares_changed: expected one `transfer.state.VALUE not in (...)` filter')
+        out['skip_states'] = [_m(STATES, s, 'manage_shares_changed') for s in _state_tuple(skips[0].comparators[0], 'skip')]
+        loops = [n for n in ms.body if isinstance(n, ast.For)]
+        expected_loop = ('for upload in uploads:\n'
+                         '    should_change, abort_reason = self._evaluate_aborted_state(upload)\n'
+                         '    if should_change:\n'
+                         '        if upload.state.VALUE == TransferState.ABORTED:\n'
+                         '            tasks.append(upload.state.queue())\n'
+                         '        else:\n'
+                         '            tasks.append(upload.state.abort(reason=abort_reason))\n'
+                         '    elif abort_reason:\n'
+                         '        upload.abort_reason = abort_reason')
+        # since 8a6456f the re-queue goes through a helper that first checks that the upload is still listed (C06: removed
+        # meanwhile). The C08 model has no `remove`: every upload stays listed, the helper is `upload.state.queue()`.
+        guarded_loop = expected_loop.replace('tasks.append(upload.state.queue())', 'tasks.append(self._requeue_if_listed(upload))')
+        if len(loops) == 1 and _src(loops[0]) == guarded_loop:
+            helper = _func(tm, '_requeue_if_listed')
+            body = [b for b in helper.body
+                    if not (isinstance(b, ast.Expr) and isinstance(b.value, ast.Constant) and isinstance(b.value.value, str))]
+            if not (isinstance(helper, ast.AsyncFunctionDef) and [a.arg for a in helper.args.args] == ['self', 'upload']
+                    and len(body) == 1 and isinstance(body[0], ast.If) and not body[0].orelse
+                    and _src(body[0].test) in ('any((transfer is upload for transfer in self._transfers))',
+                                               'any((transfer is upload for transfer in self.transfers))',
+                                               'upload in self._transfers', 'upload in self.transfers')
+                    and [_src(b) for b in body[0].body] == ['await upload.state.queue()']):
+                raise TranslateError('_requeue_if_listed: not `if <upload still listed>: await upload.state.queue()`: '
+                                     + repr(_src(helper)))
+        elif len(loops) != 1 or _src(loops[0]) != expected_loop:
+            raise TranslateError('manage_shares_changed: loop over the uploads not understood: '
+                                 + repr([_src(l) for l in loops]))
+
+    # ---- manage_shares_changed: does it ask for another cycle when it meets a held state lock? ----------
+    @section('relook')
+    def _relook(out):
+        ms = _func(tm, 'manage_shares_changed')
+        calls = [n for n in ast.walk(ms) if isinstance(n, ast.Call) and isinstance(n.func, ast.Attribute)
+                 and n.func.attr == 'request_management_cycle']
+        locked = [n for n in ast.walk(ms) if isinstance(n, ast.Call) and isinstance(n.func, ast.Attribute)
+                  and n.func.attr == 'locked']
+        if not calls and not locked:
+            out['relook_when_locked'] = False
+            return
+        ifs = [n for n in ms.body if isinstance(n, ast.If)]
+        if (len(calls) == 1 and len(locked) == 1 and len(ifs) == 1 and not ifs[0].orelse
+                and _src(ifs[0].test) == 'any((transfer.is_upload() and transfer._state_lock.locked() '
+                                         'for transfer in self.transfers))'
+                and [_src(b) for b in ifs[0].body] == ['self.request_management_cycle(_RequestFlag.SHARES_CHANGE)']):
+            out['relook_when_locked'] = True
+            return
+        raise TranslateError('manage_shares_changed: use of the state locks / request_management_cycle not understood')
 
     # ---- _on_peer_transfer_queue -------------------------------------------------------------------
-    pq = _func(tm, '_on_peer_transfer_queue')
-    out['queue_flag'] = _one_flag(pq, '_on_peer_transfer_queue', 'username')
-    blocked_if = [n for n in ast.walk(pq) if isinstance(n, ast.If) and 'is_blocked' in _src(n.test)]
-    if len(blocked_if) != 1 or not isinstance(blocked_if[0].test, ast.Call):
-        raise TranslateError('_on_peer_transfer_queue: blocked test not understood')
-    rs = [n for n in ast.walk(blocked_if[0]) if isinstance(n, ast.Attribute) and _src(n.value) == 'FailReason']
-    if len(rs) != 1 or not isinstance(blocked_if[0].body[-1], ast.Return):
-        raise TranslateError('_on_peer_transfer_queue: blocked branch not understood')
-    out['queue_blocked_reason'] = _m(FAILS, rs[0].attr, 'queue blocked')
-    eqs = [n for n in ast.walk(pq) if isinstance(n, ast.If) and isinstance(n.test, ast.Compare)
-           and _src(n.test.left) == 'transfer.state.VALUE']
-    if len(eqs) != 2:
-        raise TranslateError('_on_peer_transfer_queue: expected the ABORTED test and the requeue test')
-    first, second = eqs[0], eqs[1]
-    if not (isinstance(first.test.ops[0], ast.Eq) and len(first.body) == 1
-            and isinstance(first.body[0], ast.Assign) and _src(first.body[0].targets[0]) == 'fail_reason'
-            and first.orelse == [second] and isinstance(second.test.ops[0], ast.In)
-            and [_src(b) for b in second.body] == ['await transfer.state.queue()'] and not second.orelse):
-        raise TranslateError('_on_peer_transfer_queue: existing-transfer branch not understood')
-    out['queue_cancel_state'] = _m(STATES, _attr_of(first.test.comparators[0], 'TransferState', 'queue'), 'queue')
-    out['queue_cancel_reason'] = _m(FAILS, _attr_of(first.body[0].value, 'FailReason', 'queue'), 'queue')
-    out['requeue_states'] = [_m(STATES, s, 'queue') for s in _state_tuple(second.test.comparators[0], 'requeue')]
+    @section('queue')
+    def _queue(out):
+        pq = _func(tm, '_on_peer_transfer_queue')
+        out['queue_flag'] = _one_flag(pq, '_on_peer_transfer_queue', 'username')
+        blocked_if = [n for n in ast.walk(pq) if isinstance(n, ast.If) and 'is_blocked' in _src(n.test)]
+        if len(blocked_if) != 1 or not isinstance(blocked_if[0].test, ast.Call):
+            raise TranslateError('_on_peer_transfer_queue: blocked test not understood')
+        rs = [n for n in ast.walk(blocked_if[0]) if isinstance(n, ast.Attribute) and _src(n.value) == 'FailReason']
+        if len(rs) != 1 or not isinstance(blocked_if[0].body[-1], ast.Return):
+            raise TranslateError('_on_peer_transfer_queue: blocked branch not understood')
+        out['queue_blocked_reason'] = _m(FAILS, rs[0].attr, 'queue blocked')
+        eqs = [n for n in ast.walk(pq) if isinstance(n, ast.If) and isinstance(n.test, ast.Compare)
+               and _src(n.test.left) == 'transfer.state.VALUE']
+        if len(eqs) != 2:
+            raise TranslateError('_on_peer_transfer_queue: expected the ABORTED test and the requeue test')
+        first, second = eqs[0], eqs[1]
+        if not (isinstance(first.test.ops[0], ast.Eq) and len(first.body) == 1
+                and isinstance(first.body[0], ast.Assign) and _src(first.body[0].targets[0]) == 'fail_reason'
+                and first.orelse == [second] and isinstance(second.test.ops[0], ast.In)
+                and [_src(b) for b in second.body] == ['await transfer.state.queue()'] and not second.orelse):
+            raise TranslateError('_on_peer_transfer_queue: existing-transfer branch not understood')
+        out['queue_cancel_state'] = _m(STATES, _attr_of(first.test.comparators[0], 'TransferState', 'queue'), 'queue')
+        out['queue_cancel_reason'] = _m(FAILS, _attr_of(first.body[0].value, 'FailReason', 'queue'), 'queue')
+        out['requeue_states'] = [_m(STATES, s, 'queue') for s in _state_tuple(second.test.comparators[0], 'requeue')]
 
     # ---- _on_peer_transfer_request -----------------------------------------------------------------
-    pr = _func(tm, '_on_peer_transfer_request')
-    out['request_flag'] = _one_flag(pr, '_on_peer_transfer_request', 'username')
-    blocked_if = [n for n in ast.walk(pr) if isinstance(n, ast.If) and 'is_blocked' in _src(n.test)]
-    if (len(blocked_if) != 1 or _src(blocked_if[0].test) !=
-            f'self._settings.users.is_blocked(username, BlockingFlag.{out["request_flag"]}) and '
-            'direction == TransferDirection.UPLOAD'):
-        raise TranslateError('_on_peer_transfer_request: blocked test not understood')
-    rs = [n for n in ast.walk(blocked_if[0]) if isinstance(n, ast.Attribute) and _src(n.value) == 'FailReason']
-    if len(rs) != 1 or not isinstance(blocked_if[0].body[-1], ast.Return):
-        raise TranslateError('_on_peer_transfer_request: blocked branch not understood')
-    out['request_blocked_reason'] = _m(FAILS, rs[0].attr, 'request blocked')
-    maps = [n for n in ast.walk(pr) if isinstance(n, ast.Assign) and _src(n.targets[0]) == 'fail_reason_map']
-    if len(maps) != 1 or not isinstance(maps[0].value, ast.Dict):
-        raise TranslateError('_on_peer_transfer_request: fail_reason_map not found')
-    frm = []
-    for k, v in zip(maps[0].value.keys, maps[0].value.values):
-        frm.append((_m(STATES, _attr_of(k, 'TransferState', 'fail_reason_map'), 'fail_reason_map'),
-                    _m(FAILS, _attr_of(v, 'FailReason', 'fail_reason_map'), 'fail_reason_map')))
-    if len({k for k, _ in frm}) != len(frm):
-        raise TranslateError('fail_reason_map: duplicate key')
-    out['fail_reason_map'] = frm
+    @section('request')
+    def _request(out):
+        pr = _func(tm, '_on_peer_transfer_request')
+        out['request_flag'] = _one_flag(pr, '_on_peer_transfer_request', 'username')
+        blocked_if = [n for n in ast.walk(pr) if isinstance(n, ast.If) and 'is_blocked' in _src(n.test)]
+        if (len(blocked_if) != 1 or _src(blocked_if[0].test) !=
+                f'self._settings.users.is_blocked(username, BlockingFlag.{out["request_flag"]}) and '
+                'direction == TransferDirection.UPLOAD'):
+            raise TranslateError('_on_peer_transfer_request: blocked test not understood')
+        rs = [n for n in ast.walk(blocked_if[0]) if isinstance(n, ast.Attribute) and _src(n.value) == 'FailReason']
+        if len(rs) != 1 or not isinstance(blocked_if[0].body[-1], ast.Return):
+            raise TranslateError('_on_peer_transfer_request: blocked branch not understood')
+        out['request_blocked_reason'] = _m(FAILS, rs[0].attr, 'request blocked')
+        maps = [n for n in ast.walk(pr) if isinstance(n, ast.Assign) and _src(n.targets[0]) == 'fail_reason_map']
+        if len(maps) != 1 or not isinstance(maps[0].value, ast.Dict):
+            raise TranslateError('_on_peer_transfer_request: fail_reason_map not found')
+        frm = []
+        for k, v in zip(maps[0].value.keys, maps[0].value.values):
+            frm.append((_m(STATES, _attr_of(k, 'TransferState', 'fail_reason_map'), 'fail_reason_map'),
+                        _m(FAILS, _attr_of(v, 'FailReason', 'fail_reason_map'), 'fail_reason_map')))
+        if len({k for k, _ in frm}) != len(frm):
+            raise TranslateError('fail_reason_map: duplicate key')
+        out['fail_reason_map'] = frm
 
     # ---- other gates ---------------------------------------------------------------------------------
-    sm = ast.parse((repo / 'src/aioslsk/search/manager.py').read_text())
-    out['search_flag'] = _one_flag(_func(sm, '_query_shares_and_reply'), '_query_shares_and_reply', 'username')
-    pm = ast.parse((repo / 'src/aioslsk/peer.py').read_text())
-    out['shares_flag'] = _one_flag(_func(pm, '_on_peer_shares_request'), '_on_peer_shares_request', 'connection.username')
-    out['dir_flag'] = _one_flag(_func(pm, '_on_peer_directory_contents_req'), '_on_peer_directory_contents_req',
-                                'connection.username')
+    @section('search')
+    def _search(out):
+        sm = ast.parse((repo / 'src/aioslsk/search/manager.py').read_text())
+        out['search_flag'] = _one_flag(_func(sm, '_query_shares_and_reply'), '_query_shares_and_reply', 'username')
+
+    @section('shares')
+    def _shares(out):
+        pm = ast.parse((repo / 'src/aioslsk/peer.py').read_text())
+        out['shares_flag'] = _one_flag(_func(pm, '_on_peer_shares_request'), '_on_peer_shares_request', 'connection.username')
+
+    @section('directory')
+    def _directory(out):
+        pm = ast.parse((repo / 'src/aioslsk/peer.py').read_text())
+        out['dir_flag'] = _one_flag(_func(pm, '_on_peer_directory_contents_req'), '_on_peer_directory_contents_req',
+                                    'connection.username')
 
     # ---- excluded phrase test ------------------------------------------------------------------------
-    sh = ast.parse((repo / 'src/aioslsk/shares/manager.py').read_text())
-    q = _func(sh, 'query')
-    loops = [n for n in ast.walk(q) if isinstance(n, ast.For) and _src(n.target) == 'excl_phrase']
-    test = _src(loops[0].body[0].test) if (len(loops) == 1 and len(loops[0].body) == 1
-                                           and isinstance(loops[0].body[0], ast.If)) else None
-    if test == 'excl_phrase.lower() in found_item.get_query_path().lower()':
-        out['phrase_folded'] = True
-    elif test == 'excl_phrase in found_item.get_query_path().lower()':
-        out['phrase_folded'] = False
-    else:
-        # a rewrite of the loop (a helper, a local for the path, a comprehension): ask the real code
-        shape_error = f'SharesManager.query: excluded-phrase test not understood: {test!r}'
-        try:
-            out['phrase_folded'] = _phrase_folded_by_behaviour(repo)
-        except TranslateError as e:
-            raise TranslateError(f'{shape_error}; and: {e}')
-        except Exception as e:  # noqa: BLE001
-            raise TranslateError(f'{shape_error}; behavioural probe failed: {e!r}')
+    @section('phrase')
+    def _phrase(out):
+        sh = ast.parse((repo / 'src/aioslsk/shares/manager.py').read_text())
+        q = _func(sh, 'query')
+        loops = [n for n in ast.walk(q) if isinstance(n, ast.For) and _src(n.target) == 'excl_phrase']
+        test = _src(loops[0].body[0].test) if (len(loops) == 1 and len(loops[0].body) == 1
+                                               and isinstance(loops[0].body[0], ast.If)) else None
+        if test == 'excl_phrase.lower() in found_item.get_query_path().lower()':
+            out['phrase_folded'] = True
+        elif test == 'excl_phrase in found_item.get_query_path().lower()':
+            out['phrase_folded'] = False
+        else:
+            # a rewrite of the loop (a helper, a local for the path, a comprehension): the real code is asked
+            raise TranslateError(f'SharesManager.query: excluded-phrase test not understood: {test!r}')
 
     # ---- constants -----------------------------------------------------------------------------------
-    um = ast.parse((repo / 'src/aioslsk/user/model.py').read_text())
-    flags = _class_consts(um, 'BlockingFlag', int)
-    for key in ('eval_flag', 'queue_flag', 'request_flag', 'search_flag', 'shares_flag', 'dir_flag'):
+    @section('constants')
+    def _constants(out):
+        um = ast.parse((repo / 'src/aioslsk/user/model.py').read_text())
+        out['flag_values'] = _class_consts(um, 'BlockingFlag', int)
+        mm = ast.parse((repo / 'src/aioslsk/transfer/model.py').read_text())
+        out['abort_consts'] = _class_consts(mm, 'AbortReason', str)
+        out['fail_consts'] = _class_consts(mm, 'FailReason', str)
+
+    return out, errors
+
+
+FLAG_KEYS = ('eval_flag', 'queue_flag', 'request_flag', 'search_flag', 'shares_flag', 'dir_flag')
+KEYS = ('requested_reason', 'conditions', 'skip_states', 'queue_blocked_reason', 'queue_cancel_state',
+        'queue_cancel_reason', 'requeue_states', 'request_blocked_reason', 'fail_reason_map', 'phrase_folded',
+        'relook_when_locked', 'flag_values', 'abort_consts', 'fail_consts') + FLAG_KEYS
+
+
+def _finish(out: dict) -> dict:
+    """flag names -> (name, value); reason strings by model name; the vocabulary checks"""
+    out = dict(out)
+    flags = out.pop('flag_values')
+    for key in FLAG_KEYS:
         name = out[key]
         if name not in flags:
             raise TranslateError(f'BlockingFlag.{name} has no integer value in user/model.py')
@@ -314,16 +393,548 @@ def extract(repo: Path) -> dict:
         if v <= 0 or v & (v - 1):
             raise TranslateError(f'BlockingFlag.{name} = {v} is not a single bit')
         out[key] = (name, v)
-    mm = ast.parse((repo / 'src/aioslsk/transfer/model.py').read_text())
-    ar = _class_consts(mm, 'AbortReason', str)
-    fr = _class_consts(mm, 'FailReason', str)
+    ar, fr = out.pop('abort_consts'), out.pop('fail_consts')
     if set(ar) != set(REASONS):
         raise TranslateError(f'AbortReason members {sorted(ar)} differ from the model vocabulary')
     if set(fr) != set(FAILS):
         raise TranslateError(f'FailReason members {sorted(fr)} differ from the model vocabulary')
     out['abort_text'] = {REASONS[k]: v for k, v in ar.items()}
     out['fail_text'] = {FAILS[k]: v for k, v in fr.items()}
+    # sets / a dict in the source: written in the order of the State enum, however the source spells them
+    order = list(STATES.values())
+    out['skip_states'] = sorted(out['skip_states'], key=order.index)
+    out['requeue_states'] = sorted(out['requeue_states'], key=order.index)
+    out['fail_reason_map'] = sorted(out['fail_reason_map'], key=lambda kv: order.index(kv[0]))
     return out
+
+
+def extract(repo: Path) -> dict:
+    """the AST reading alone (raises on the first section it cannot read)"""
+    out, errors = _ast_sections(repo)
+    if errors:
+        raise TranslateError('; '.join(f'[{k}] {v}' for k, v in errors.items()))
+    return _finish(out)
+
+
+# ------------------------------------------------------------------------------------------------
+# the same constants read off the RUNNING code
+# ------------------------------------------------------------------------------------------------
+
+class _PConn:
+    """stands for a peer connection: records what a handler queues / sends on it"""
+
+    def __init__(self, username):
+        self.username = username
+        self.hostname = '10.0.0.9'
+        self.port = 2234
+        self.out: list = []
+
+    def queue_message(self, message):
+        self.out.append(message)
+
+    async def send_message(self, message):
+        self.out.append(message)
+
+
+class _PNet:
+    def __init__(self):
+        self.peer: list = []
+
+    async def send_peer_messages(self, username, *messages, **kw):
+        for m in messages:
+            self.peer.append((username, m))
+        return [None for _ in messages]
+
+    async def send_server_messages(self, *messages, **kw):
+        return [None for _ in messages]
+
+    def queue_server_messages(self, *messages):
+        return []
+
+
+def _require_tree(repo: Path, *modules):
+    import importlib
+    import inspect
+    for name in modules:
+        mod = importlib.import_module(name)
+        src = repo / 'src' / (name.replace('.', '/') + '.py')
+        if Path(inspect.getsourcefile(mod)).resolve() != src.resolve():
+            raise TranslateError(f'{name} is imported from {mod.__file__}, not from {src}')
+
+
+def _verdict(conds, requested, r, b, n):
+    """the model's `verdict` (Model/Entitle.lean): the reason of the first condition that holds"""
+    for cond, reason in conds:
+        if {'abortRequested': r == requested, 'userBlocked': b, 'notShared': n}[cond]:
+            return reason
+    return None
+
+
+def _condition_candidates(table: dict) -> list:
+    """every (conditions, requested_reason) whose first-match verdict is the observed decision table
+    `table[(reason, blocked, not_shared)] -> reason | None` (model names)"""
+    import itertools
+    names = ['requested', 'blocked', 'notShared']
+    found = []
+    for order in itertools.permutations(['abortRequested', 'userBlocked', 'notShared']):
+        for rs in itertools.product(names, repeat=3):
+            conds = list(zip(order, rs))
+            for requested in names:
+                if all(_verdict(conds, requested, r, b, n) == v for (r, b, n), v in table.items()):
+                    found.append((conds, requested))
+    return found
+
+
+def extract_by_behaviour(repo: Path) -> dict:
+    """The constants read off the RUNNING code, independent of how it is written (helpers, comprehensions, early
+    `continue`s): every domain below is finite and enumerated completely.
+
+      manage_shares_changed   one real upload per state (10) x abort_reason (none + 3) x user blocked? x file shared?,
+                              the state methods it calls (spied on the state objects) and the reasons it assigns -> the
+                              decision table; the states in which it calls / assigns nothing at all = skip states; the
+                              (conditions, requested reason) are the ones whose first-match verdict IS that table; the
+                              calls must be the model's (`queue()` out of ABORTED, `abort(reason=verdict)` otherwise, a
+                              plain assignment when only the reason changes) and the uploads must end where those calls
+                              lead; the blocking flag = the single bit for which a blocked user's upload is aborted
+      the two upload handlers a PeerTransferQueue / PeerTransferRequest delivered on the bus: for a user blocked with each
+                              single BlockingFlag bit (refused? with which reason), and for an existing upload of a shared
+                              file in each state (reply reason, state method called)
+      search / shares / directory gates   the single bit that silences the real handler
+      constants               the classes themselves"""
+    import asyncio
+    import shutil
+    import tempfile
+    _require_tree(repo, 'aioslsk.transfer.manager', 'aioslsk.transfer.model', 'aioslsk.transfer.state',
+                  'aioslsk.search.manager', 'aioslsk.peer', 'aioslsk.shares.manager', 'aioslsk.user.model',
+                  'aioslsk.settings')
+    tmp = tempfile.mkdtemp(prefix='c08-consts-')
+    loop = asyncio.new_event_loop()
+    try:
+        out = loop.run_until_complete(asyncio.wait_for(_probe(Path(tmp)), 120))
+    except asyncio.TimeoutError:
+        raise TranslateError('the behavioural probe of the entitlement constants did not finish')
+    finally:
+        try:
+            pending = [t for t in asyncio.all_tasks(loop) if not t.done()]
+            for t in pending:
+                t.cancel()
+            if pending:
+                loop.run_until_complete(asyncio.gather(*pending, return_exceptions=True))
+        finally:
+            loop.close()
+            shutil.rmtree(tmp, ignore_errors=True)
+    out['phrase_folded'] = _phrase_folded_by_behaviour(repo)
+    return out
+
+
+async def _probe(tmp: Path) -> dict:
+    import asyncio
+    import logging
+    from aioslsk.events import EventBus, MessageReceivedEvent, SessionInitializedEvent
+    from aioslsk.peer import PeerManager
+    from aioslsk.protocol import messages as M
+    from aioslsk.search.manager import SearchManager
+    from aioslsk.session import Session
+    from aioslsk.settings import Settings
+    from aioslsk.shares.manager import SharesManager
+    from aioslsk.transfer.manager import TransferManager
+    from aioslsk.transfer.model import AbortReason, FailReason, Transfer, TransferDirection
+    from aioslsk.transfer.state import TransferState
+    from aioslsk.user.model import BlockingFlag, User
+
+    logging.getLogger('aioslsk').setLevel(logging.CRITICAL)
+    out: dict = {}
+
+    def consts(cls, typ):
+        return {k: v for k, v in vars(cls).items() if not k.startswith('_') and type(v) is typ}
+    out['abort_consts'] = consts(AbortReason, str)
+    out['fail_consts'] = consts(FailReason, str)
+    out['flag_values'] = {k: int(v) for k, v in BlockingFlag.__members__.items()}
+    abort_name = {v: _m(REASONS, k, 'AbortReason') for k, v in out['abort_consts'].items()}
+    fail_name = {v: _m(FAILS, k, 'FailReason') for k, v in out['fail_consts'].items()}
+    if len(abort_name) != len(out['abort_consts']) or len(fail_name) != len(out['fail_consts']):
+        raise TranslateError('two AbortReason / FailReason members with one text')
+    bits = [f for f in BlockingFlag.__members__.values() if int(f) and not int(f) & (int(f) - 1)]
+    bit_name = {}
+    for name, f in BlockingFlag.__members__.items():
+        if f in bits:
+            bit_name.setdefault(int(f), name)
+    states = [s for s in TransferState.State if s.name != 'UNSET']
+    if {s.name for s in states} != set(STATES):
+        raise TranslateError(f'State members {sorted(s.name for s in states)} differ from the model vocabulary')
+
+    class Users:
+        def __init__(self):
+            self.users: dict = {}
+
+        def get_user_object(self, username):
+            return self.users.setdefault(username, User(name=username))
+
+        async def track_user(self, username, flag):
+            pass
+
+        async def untrack_user(self, username, flag):
+            pass
+
+    d = tmp / 'Music'
+    (d / 'Live Set').mkdir(parents=True)
+    (d / 'Live Set' / 'probe song.mp3').write_bytes(b'x')
+    settings = Settings(credentials={'username': 'me', 'password': 'p'})
+    settings.transfers.limits.upload_slots = 0
+    bus = EventBus()
+    net = _PNet()
+    users = Users()
+    shares = SharesManager(settings, bus, net)
+    sd = shares.add_shared_directory(str(d))
+    await shares.scan_directory_files(sd)
+    items = list(sd.items)
+    if len(items) != 1:
+        raise TranslateError(f'the probe directory was indexed as {len(items)} items')
+    shared_path = items[0].get_remote_path()
+    shared_dir = items[0].get_remote_directory_path()
+    unshared_path = shared_path + '.zzz'
+    xfer = TransferManager(settings, bus, users, shares, net)
+    search = SearchManager(settings, bus, shares, xfer, net)
+    peer = PeerManager(settings, bus, users, shares, xfer, net)
+    keep = [shares, xfer, search, peer]                  # the bus holds listeners weakly
+    session = Session(user=User(name='me'), ip_address='1.2.3.4', greeting='', client_version=1, minor_version=1)
+    await bus.emit(SessionInitializedEvent(session, raw_message=None))
+    counter = [0]
+
+    def fresh_user():
+        counter[0] += 1
+        return f'probe{counter[0]}'
+
+    async def drain():
+        for _ in range(8):
+            await asyncio.sleep(0)
+
+    def spy(t, log):
+        st = t.state
+        for name in ('abort', 'queue', 'fail', 'pause', 'initialize', 'complete', 'incomplete', 'start_transferring'):
+            orig = getattr(st, name)
+
+            async def w(*a, _o=orig, _n=name, **k):
+                log.append((_n, tuple(a), tuple(sorted(k.items()))))
+                return await _o(*a, **k)
+            setattr(st, name, w)
+
+    async def upload(user, path, state, reason):
+        t = Transfer(user, path, TransferDirection.UPLOAD)
+        t = await xfer.add(t)
+        t.state = TransferState.init_from_state(state, t)
+        t.abort_reason = reason
+        log: list = []
+        spy(t, log)
+        return t, log
+
+    async def twin_ends(state, reason, calls):
+        """where the recorded calls lead a transfer that nothing else touches"""
+        t = Transfer('twin', 'twin', TransferDirection.UPLOAD)
+        t.state = TransferState.init_from_state(state, t)
+        t.abort_reason = reason
+        for name, a, k in calls:
+            await getattr(t.state, name)(*a, **dict(k))
+        return t.state.VALUE.name, t.abort_reason
+
+    if not hasattr(xfer, 'manage_shares_changed'):
+        raise TranslateError('TransferManager has no manage_shares_changed')
+
+    # ---- the blocking flag of the cycle --------------------------------------------------------------
+    rows = []
+    for f in bits:
+        u = fresh_user()
+        settings.users.blocked[u] = f
+        rows.append((f, await upload(u, shared_path, TransferState.QUEUED, None)))
+    await xfer.manage_shares_changed()
+    await drain()
+    hit = [f for f, (t, log) in rows if log or t.state.VALUE != TransferState.QUEUED]
+    if len(hit) != 1:
+        raise TranslateError(f'manage_shares_changed: the upload of a blocked user is acted upon for the flags '
+                             f'{[bit_name[int(f)] for f in hit]} (expected exactly one)')
+    eval_flag = hit[0]
+    out['eval_flag'] = bit_name[int(eval_flag)]
+
+    # ---- the decision table ----------------------------------------------------------------------------
+    reasons = [None] + list(out['abort_consts'].values())
+    rows = []
+    for s in states:
+        for r in reasons:
+            for b in (False, True):
+                for n in (False, True):
+                    u = fresh_user()
+                    if b:
+                        settings.users.blocked[u] = eval_flag
+                    rows.append(((s, r, b, n), await upload(u, unshared_path if n else shared_path, s, r)))
+    await xfer.manage_shares_changed()
+    await drain()
+    per_state: dict = {}
+    for (s, r, b, n), (t, log) in rows:
+        end = (t.state.VALUE.name, t.abort_reason)
+        where = f'manage_shares_changed on an upload {s.name} / {r!r} (blocked {b}, not shared {n})'
+        if len(log) > 1 or any(c[0] not in ('abort', 'queue') for c in log):
+            raise TranslateError(f'{where}: calls {log}')
+        if log:
+            name, a, k = log[0]
+            if name == 'queue' and (a or k) or name == 'abort' and (a or [x for x, _ in k] != ['reason']):
+                raise TranslateError(f'{where}: calls {log}')
+            if end != await twin_ends(s, r, log):
+                raise TranslateError(f'{where}: called {log} and left the upload {end}')
+            act = ('queue',) if name == 'queue' else ('abort', k[0][1])
+        elif end == (s.name, r):
+            act = ('nothing',)
+        elif end[0] == s.name:
+            act = ('assign', end[1])
+        else:
+            raise TranslateError(f'{where}: the upload is {end} without a state method having been called')
+        per_state.setdefault(s, {})[(r, b, n)] = act
+    skip = [s for s in states if all(a == ('nothing',) for a in per_state[s].values())]
+    aborted = TransferState.ABORTED
+    tables = {}
+    for s in states:
+        if s in skip:
+            continue
+        tab = {}
+        for (r, b, n), act in per_state[s].items():
+            where = f'manage_shares_changed on an upload {s.name} / {r!r} (blocked {b}, not shared {n})'
+            if s == aborted:
+                # ABORTED: `queue()` when nothing applies any more, else the reason is (re)assigned
+                if act == ('queue',):
+                    v = None
+                elif act[0] == 'assign' or act == ('nothing',) and r is not None:
+                    v = act[1] if act[0] == 'assign' else r
+                else:
+                    raise TranslateError(f'{where}: {act}')
+            else:
+                if act == ('nothing',):
+                    v = None
+                elif act[0] == 'abort' and act[1] is not None:
+                    v = act[1]
+                else:
+                    raise TranslateError(f'{where}: {act}')
+            if v is not None and v not in abort_name:
+                raise TranslateError(f'{where}: reason {v!r} is not an AbortReason')
+            tab[(None if r is None else abort_name[r], b, n)] = None if v is None else abort_name[v]
+        tables[s] = tab
+    if not tables:
+        raise TranslateError('manage_shares_changed acts on no upload at all')
+    first = next(iter(tables.values()))
+    for s, tab in tables.items():
+        if tab != first:
+            raise TranslateError(f'manage_shares_changed: the decision for an upload depends on its state ({s.name}) in a '
+                                 f'way the model does not have')
+    if aborted not in tables:
+        raise TranslateError('manage_shares_changed leaves ABORTED uploads alone')
+    cands = _condition_candidates(first)
+    if not cands:
+        raise TranslateError(f'manage_shares_changed: the decision table is not a first-match search over the three '
+                             f'conditions: {first}')
+    out['condition_candidates'] = cands
+    out['conditions'], out['requested_reason'] = cands[0]
+    out['skip_states'] = [STATES[s.name] for s in skip]
+
+    # ---- a held state lock: is another shares cycle asked for? ------------------------------------------
+    class Gate:
+        """a state listener that keeps the NEXT transition (and with it the transfer's state lock) waiting"""
+        def __init__(self):
+            self.fut = None
+
+        async def on_transfer_state_changed(self, transfer, old, new):
+            fut, self.fut = self.fut, None
+            if fut is not None:
+                await fut
+    asked: list = []
+    real_request = xfer.request_management_cycle
+
+    def spying_request(flag, *a, **k):
+        asked.append(getattr(flag, 'name', None) or str(flag))
+        return real_request(flag, *a, **k)
+    xfer.request_management_cycle = spying_request
+    try:
+        await xfer.manage_shares_changed()
+        await drain()
+        if any('SHARES' in str(f) for f in asked):
+            raise TranslateError('manage_shares_changed asks for another shares cycle although no state lock is held')
+        t, log = await upload(fresh_user(), shared_path, TransferState.QUEUED, None)
+        gate = Gate()
+        t.state_listeners.append(gate)
+        gate.fut = asyncio.get_running_loop().create_future()
+        fut = gate.fut
+        pausing = asyncio.ensure_future(t.state.pause())
+        await drain()
+        if pausing.done() or t.state.VALUE != TransferState.PAUSED:
+            raise TranslateError('the probe could not keep a transition (and the state lock) waiting in a state listener')
+        del asked[:]
+        job = asyncio.ensure_future(xfer.manage_shares_changed())
+        await drain()
+        relook = any('SHARES' in str(f) for f in asked)
+        fut.set_result(None)
+        await asyncio.wait_for(asyncio.gather(pausing, job), 30)
+        if any('SHARES' in str(f) for f in asked) != relook:
+            raise TranslateError('manage_shares_changed asks for another shares cycle only after the state lock was released '
+                                 '(the model has: at the moment it looks, or never)')
+        out['relook_when_locked'] = relook
+    finally:
+        del xfer.request_management_cycle
+
+    # ---- the two upload handlers ---------------------------------------------------------------------
+    ticket = [500]
+
+    async def ask(kind, user, path):
+        c = _PConn(user)
+        ticket[0] += 1
+        if kind == 'queue':
+            msg = M.PeerTransferQueue.Request(path)
+        else:
+            msg = M.PeerTransferRequest.Request(TransferDirection.UPLOAD.value, ticket[0], path)
+        await bus.emit(MessageReceivedEvent(message=msg, connection=c))
+        await drain()
+        want = M.PeerTransferQueueFailed.Request if kind == 'queue' else M.PeerTransferReply.Request
+        if any(not isinstance(m, want) for m in c.out) or len(c.out) > 1:
+            raise TranslateError(f'{kind} handler: answered with {c.out!r}')
+        if not c.out:
+            return None
+        m = c.out[0]
+        if kind == 'queue' and m.filename != path or kind != 'queue' and (m.ticket != ticket[0] or m.allowed):
+            raise TranslateError(f'{kind} handler: answered with {m!r}')
+        if m.reason not in fail_name:
+            raise TranslateError(f'{kind} handler: reason {m.reason!r} is not a FailReason')
+        return fail_name[m.reason]
+
+    def find(user, path):
+        return [t for t in xfer.transfers if t.username == user and t.remote_path == path and t.is_upload()]
+
+    for kind, kflag, kreason in (('queue', 'queue_flag', 'queue_blocked_reason'),
+                                 ('request', 'request_flag', 'request_blocked_reason')):
+        refusing = []
+        for f in bits:
+            u = fresh_user()
+            settings.users.blocked[u] = f
+            reply = await ask(kind, u, shared_path)
+            created = find(u, shared_path)
+            if created and created[0].state.VALUE != TransferState.QUEUED:
+                raise TranslateError(f'{kind} handler: a new upload is left {created[0].state.VALUE.name}')
+            if not created:
+                if reply is None:
+                    raise TranslateError(f'{kind} handler: a user blocked with {bit_name[int(f)]} gets no upload and no answer')
+                refusing.append((f, reply))
+            elif reply != (None if kind == 'queue' else 'queued'):
+                raise TranslateError(f'{kind} handler: upload created and answered {reply}')
+        if len(refusing) != 1:
+            raise TranslateError(f'{kind} handler: refuses users blocked with {[bit_name[int(f)] for f, _ in refusing]} '
+                                 f'(expected exactly one flag)')
+        out[kflag] = bit_name[int(refusing[0][0])]
+        out[kreason] = refusing[0][1]
+        per = {}
+        for s in states:
+            u = fresh_user()
+            t, log = await upload(u, shared_path, s, None)
+            reply = await ask(kind, u, shared_path)
+            if len(log) > 1 or any(c != ('queue', (), ()) for c in log):
+                raise TranslateError(f'{kind} handler on an existing {s.name} upload of a shared file: calls {log}')
+            if (t.state.VALUE.name, t.abort_reason) != await twin_ends(s, None, log):
+                raise TranslateError(f'{kind} handler on an existing {s.name} upload: called {log}, left it '
+                                     f'{t.state.VALUE.name}')
+            if log and reply is not None:
+                raise TranslateError(f'{kind} handler on an existing {s.name} upload: queues it again AND answers {reply}')
+            per[s] = ('queue',) if log else ('reply', reply) if reply is not None else ('nothing',)
+        if kind == 'queue':
+            cancel = [(s, a[1]) for s, a in per.items() if a[0] == 'reply']
+            if len(cancel) != 1:
+                raise TranslateError(f'queue handler: existing uploads are answered with a failure in '
+                                     f'{[s.name for s, _ in cancel]} (the model has exactly one such state)')
+            out['queue_cancel_state'] = STATES[cancel[0][0].name]
+            out['queue_cancel_reason'] = cancel[0][1]
+            out['requeue_states'] = [STATES[s.name] for s, a in per.items() if a == ('queue',)]
+        else:
+            if any(a == ('queue',) for a in per.values()):
+                raise TranslateError(f'request handler: queues existing uploads again in '
+                                     f'{[s.name for s, a in per.items() if a == ("queue",)]}')
+            out['fail_reason_map'] = [(STATES[s.name], a[1]) for s, a in per.items() if a[0] == 'reply']
+
+    # ---- search / shares / directory gates ---------------------------------------------------------------
+    async def search_reply(user):
+        before = len(net.peer)
+        ticket[0] += 1
+        await bus.emit(MessageReceivedEvent(message=M.FileSearch.Response(user, ticket[0], 'probe song'), connection=None))
+        await drain()
+        return [m for to, m in net.peer[before:] if to == user and isinstance(m, M.PeerSearchReply.Request)]
+
+    async def shares_reply(user):
+        c = _PConn(user)
+        await bus.emit(MessageReceivedEvent(message=M.PeerSharesRequest.Request(), connection=c))
+        await drain()
+        return [m for m in c.out if isinstance(m, M.PeerSharesReply.Request)]
+
+    async def dir_reply(user):
+        c = _PConn(user)
+        ticket[0] += 1
+        await bus.emit(MessageReceivedEvent(message=M.PeerDirectoryContentsRequest.Request(ticket[0], shared_dir),
+                                            connection=c))
+        await drain()
+        return [m for m in c.out if isinstance(m, M.PeerDirectoryContentsReply.Request)]
+
+    for key, what, fn in (('search_flag', 'search', search_reply), ('shares_flag', 'shares', shares_reply),
+                          ('dir_flag', 'directory', dir_reply)):
+        if len(await fn(fresh_user())) != 1:
+            raise TranslateError(f'{what} gate: a user who is not blocked gets no reply from the probe rig')
+        silent = []
+        for f in bits:
+            u = fresh_user()
+            settings.users.blocked[u] = f
+            if not await fn(u):
+                silent.append(f)
+        if len(silent) != 1:
+            raise TranslateError(f'{what} gate: silent for users blocked with {[bit_name[int(f)] for f in silent]} '
+                                 f'(expected exactly one flag)')
+        out[key] = bit_name[int(silent[0])]
+    del keep
+    return out
+
+
+def _agree(key, a, b, beh) -> bool:
+    if key == 'conditions':
+        return a in [c for c, _ in beh['condition_candidates']]
+    if key == 'requested_reason':
+        return a in [r for _, r in beh['condition_candidates']]
+    if key in ('skip_states', 'requeue_states'):
+        return sorted(a) == sorted(b) and len(set(a)) == len(a)
+    if key == 'fail_reason_map':
+        return dict(a) == dict(b)
+    if key == 'flag_values':
+        return all(a.get(k) == v for k, v in b.items() if k in a) and set(a) <= set(b)
+    return a == b
+
+
+def extract_checked(repo: Path) -> dict:
+    """AST reading cross-checked against the behavioural reading, key by key; for a section whose source has a shape the
+    AST walk does not know (a refactoring) the behavioural reading alone — provided the running code is the tree under
+    test. The two readings disagreeing is an error (never resolved silently)."""
+    a, errors = _ast_sections(repo)
+    try:
+        beh = extract_by_behaviour(repo)
+    except TranslateError as e:
+        if 'is imported from' in str(e) and not errors:
+            return _finish(a)                  # the tree under test is not the importable one: AST reading only
+        shape = '; '.join(f'[{k}] {v}' for k, v in errors.items())
+        raise TranslateError(f'{shape + "; and " if shape else ""}the behavioural reading failed: {e}')
+    except Exception as e:  # noqa: BLE001
+        shape = '; '.join(f'[{k}] {v}' for k, v in errors.items())
+        raise TranslateError(f'{shape + "; and " if shape else ""}the behavioural reading failed: {e!r}')
+    out = {}
+    for key in KEYS:
+        if key in a:
+            if not _agree(key, a[key], beh[key], beh):
+                raise TranslateError(f'AST and behavioural reading disagree on {key}: {a[key]!r} vs '
+                                     f'{beh["condition_candidates"] if key in ("conditions", "requested_reason") else beh[key]!r}')
+            out[key] = a[key]
+        else:
+            out[key] = beh[key]
+    if ('conditions' in a) != ('requested_reason' in a) or \
+            (out['conditions'], out['requested_reason']) not in beh['condition_candidates']:
+        raise TranslateError(f'conditions {out["conditions"]} / requested reason {out["requested_reason"]} are not a reading '
+                             f'of the observed decision table')
+    return _finish(out)
 
 
 def _lean_list(items) -> str:
@@ -331,7 +942,7 @@ def _lean_list(items) -> str:
 
 
 def generate(repo: Path, lean_dir: Path) -> str:
-    c = extract(repo)
+    c = extract_checked(repo)
     conds = _lean_list(f'(.{p}, .{r})' for p, r in c['conditions'])
     frm = '\n'.join(f'  | .{s} => some .{r}' for s, r in c['fail_reason_map'])
     at = '\n'.join(f'  | .{k} => "{v}"' for k, v in sorted(c['abort_text'].items()))
@@ -379,6 +990,8 @@ def dirFlag : Nat := {flag('dir_flag')}
 def gateFlags : List (String × String × Nat) := {gates}
 /-- `SharesManager.query`: is the excluded phrase lower-cased before `in path.lower()`? -/
 def phraseFolded : Bool := {'true' if c['phrase_folded'] else 'false'}
+/-- `manage_shares_changed`: does it ask for another shares cycle when it meets an upload whose state lock is held? -/
+def relookWhenLocked : Bool := {'true' if c['relook_when_locked'] else 'false'}
 /-- `AbortReason` strings -/
 def abortText : Reason → String
 {at}
